@@ -408,10 +408,14 @@ pub fn make_ctx(prog: Arc<Program>) -> (Arc<Ss<Ctx>>, Handles) {
             "rwlock" => Obj::RwLock(RwLock::new(a0.parse().unwrap_or(0))),
             "sem" => {
                 let fair = o.args.get(1).map(|s| s.as_str()) == Some("fair");
-                Obj::Sem(BatchSemaphore::new(
-                    a0.parse().unwrap_or(0),
-                    if fair { Fairness::StrictlyFair } else { Fairness::Unfair },
-                ))
+                let f = if fair { Fairness::StrictlyFair } else { Fairness::Unfair };
+                // `obj s sem N fair|unfair const`: the const constructor (what a `static` semaphore uses) — identity,
+                // object id and the permit clocks are then initialised lazily by the first operation
+                if o.args.get(2).map(|s| s.as_str()) == Some("const") {
+                    Obj::Sem(BatchSemaphore::const_new(a0.parse().unwrap_or(0), f))
+                } else {
+                    Obj::Sem(BatchSemaphore::new(a0.parse().unwrap_or(0), f))
+                }
             }
             "chan" => {
                 if a0 == "unb" || a0.is_empty() {
